@@ -305,13 +305,32 @@ class PLTr(pyexpr.Tr):
         return None
 
 
-def _fn(rel, cls, name, params):
+def _canon(fn, iface=None):
+    """a copy of `fn` with its LOCAL variables renamed: those named in `iface` (source name -> the name the generated
+    definition uses for it) and all others to v0, v1, ... in order of first binding (pyexpr.local_names).  Local
+    names, docstrings, comments, formatting and exception messages are therefore not part of the tie: the generated
+    text does not change when they do."""
+    import copy
+
+    iface = dict(iface or {})
+    mapping = {}
+    i = 0
+    for n in pyexpr.local_names(fn):
+        if n in iface:
+            mapping[n] = iface[n]
+        else:
+            mapping[n] = f"v{i}"
+            i += 1
+    return pyexpr._Renamer(mapping).visit(copy.deepcopy(fn))
+
+
+def _fn(rel, cls, name, params, iface=None):
     tree = T._parse(rel)
     fn = T._find_func(T._find_class(tree, cls) if cls else tree, name)
     got = [a.arg for a in fn.args.args]
     if got != params:
         raise T.Broken(f"unexpected parameters of {name}: {got}")
-    return fn
+    return _canon(fn, iface)
 
 
 def _wrap(f):
@@ -486,7 +505,7 @@ def c_remove_l():
 # ------------------------------------------------------------------ the extreme-value stage of select_cells
 class ExtTr(PLTr):
     def special(self, s, u, rest):
-        # prop_values = self.<dict>[property_name].data : the lookup (KeyError) is the caller's; here the array is a parameter
+        # <array> = self.<dict>[<name variable>].data : the lookup (KeyError) is the caller's; here the array is a parameter
         if re.fullmatch(r"prop_values = self\.(_mesa_property_layers|properties)\[property_name\]\.data", u):
             self.kinds["prop_values"] = "arr"
             return self.run(rest)
@@ -494,10 +513,23 @@ class ExtTr(PLTr):
 
 
 def _ext(rel, cls, tag):
-    fn = T._find_func(T._find_class(T._parse(rel), cls), "select_cells")
+    fn0 = T._find_func(T._find_class(T._parse(rel), cls), "select_cells")
+    loops = [n for n in ast.walk(fn0) if isinstance(n, ast.For) and ast.unparse(n.iter) == "extreme_values.items()"]
+    if len(loops) != 1 or loops[0].orelse or not (isinstance(loops[0].target, ast.Tuple) and len(loops[0].target.elts) == 2
+                                                 and all(isinstance(x, ast.Name) for x in loops[0].target.elts)):
+        raise T.Broken("expected one `for <name>, <mode> in extreme_values.items():` loop")
+    # interface locals, whatever they are called: the combined mask (bound by the first statement of select_cells),
+    # the two loop variables, the array looked up from the layer dict at the top of the loop body
+    first = [st for st in fn0.body if isinstance(st, ast.Assign)]
+    if not first or not isinstance(first[0].targets[0], ast.Name):
+        raise T.Broken("select_cells does not start by binding the combined mask")
+    namev, modev = (x.id for x in loops[0].target.elts)
+    b0 = loops[0].body[0] if loops[0].body else None
+    if not (isinstance(b0, ast.Assign) and isinstance(b0.targets[0], ast.Name)):
+        raise T.Broken("the loop body does not start by looking up the layer's array")
+    iface = {first[0].targets[0].id: "combined_mask", namev: "property_name", modev: "mode", b0.targets[0].id: "prop_values"}
+    fn = _canon(fn0, iface)
     loops = [n for n in ast.walk(fn) if isinstance(n, ast.For) and ast.unparse(n.iter) == "extreme_values.items()"]
-    if len(loops) != 1 or ast.unparse(loops[0].target) != "(property_name, mode)" or loops[0].orelse:
-        raise T.Broken("expected one `for property_name, mode in extreme_values.items():` loop")
     tr = ExtTr("data", kinds={"combined_mask": "barr", "mode": "Z"}, state="combined_mask")
     t = tr.run(list(loops[0].body))
     return f"Definition gen_ext_step_{tag} (combined_mask : gmask) (prop_values : garr) (mode : Z) : gres gmask :=\n  {t}."
@@ -505,28 +537,59 @@ def _ext(rel, cls, tag):
 
 # ------------------------------------------------------------------ get_neighborhood_mask
 class MaskTr(PLTr):
+    """statements compared modulo local names (the function is alpha-normalised by _canon first: the neighbourhood and the
+    mask get the names the generated definition uses, every other local is v0, v1, ...)"""
+
     def special(self, s, u, rest):
-        if u in ("cell = self._cells[coordinate]",
-                 "neighborhood = cell.get_neighborhood(include_center=include_center, radius=radius)",
-                 "neighborhood = self.get_neighborhood(pos, moore, include_center, radius)"):
+        if re.fullmatch(r"v\d+ = self\._cells\[coordinate\]", u):
+            return self.run(rest)                 # the cell whose neighbourhood is asked for
+        if re.fullmatch(r"neighborhood = (v\d+\.get_neighborhood\(include_center=include_center, radius=radius\)"
+                        r"|self\.get_neighborhood\(pos, moore, include_center, radius\)"
+                        r"|self\.get_neighborhood\(pos, include_center, radius\))", u):
             return self.run(rest)                 # the neighbourhood itself is C07 / C09: a parameter here
-        if u in ("coords = np.array([c.coordinate for c in neighborhood])", "coords = np.array(neighborhood)"):
-            self.kinds["coords"] = "coords"
-            return f"(let coords := neighborhood in {self.run(rest)})"
-        if u == "indices = [coords[:, i] for i in range(coords.shape[1])]" and self.kinds.get("coords") == "coords":
-            self.kinds["indices"] = "coords"
-            return f"(let indices := coords in {self.run(rest)})"
-        if (u in ("mask[*indices] = True", "mask[*indices,] = True") and self.kinds.get("indices") == "coords" and self.kinds.get("mask") == "barr"):
-            return f"(let mask := g_set_many mask indices in {self.run(rest)})"
-        if (u == "mask[coords[:, 0], coords[:, 1]] = True" and self.kinds.get("coords") == "coords" and self.kinds.get("mask") == "barr"):
-            return f"(let mask := g_set_many mask coords in {self.run(rest)})"
+        m = re.fullmatch(r"(v\d+) = np\.array\((\[(v\d+)\.coordinate for \3 in neighborhood\]|neighborhood)\)", u)
+        if m:
+            self.kinds[m.group(1)] = "coords"
+            return f"(let {m.group(1)} := neighborhood in {self.run(rest)})"
+        m = re.fullmatch(r"(v\d+) = \[(v\d+)\[:, (v\d+)\] for \3 in range\(\2\.shape\[1\]\)\]", u)
+        if m and self.kinds.get(m.group(2)) == "coords":
+            self.kinds[m.group(1)] = "coords"
+            return f"(let {m.group(1)} := {m.group(2)} in {self.run(rest)})"
+        m = re.fullmatch(r"mask\[\*(v\d+),?\] = True", u)
+        if m and self.kinds.get(m.group(1)) == "coords" and self.kinds.get("mask") == "barr":
+            return f"(let mask := g_set_many mask {m.group(1)} in {self.run(rest)})"
+        m = re.fullmatch(r"mask\[(v\d+)\[:, 0\], \1\[:, 1\]\] = True", u)
+        if m and self.kinds.get(m.group(1)) == "coords" and self.kinds.get("mask") == "barr":
+            return f"(let mask := g_set_many mask {m.group(1)} in {self.run(rest)})"
         return None
 
 
 def _nmask(rel, cls, params, tag):
-    fn = _fn(rel, cls, "get_neighborhood_mask", params)
+    tree = T._parse(rel)
+    fn0 = T._find_func(T._find_class(tree, cls), "get_neighborhood_mask")
+    if [a.arg for a in fn0.args.args] != params:
+        raise T.Broken("unexpected parameters of get_neighborhood_mask")
+    nb = [st.targets[0].id for st in fn0.body if isinstance(st, ast.Assign) and isinstance(st.targets[0], ast.Name)
+          and isinstance(st.value, ast.Call) and ast.unparse(st.value.func).endswith("get_neighborhood")]
+    mk = [st.targets[0].id for st in fn0.body if isinstance(st, ast.Assign) and isinstance(st.targets[0], ast.Name)
+          and isinstance(st.value, ast.Call) and ast.unparse(st.value.func) == "np.zeros"]
+    if len(nb) != 1 or len(mk) != 1:
+        raise T.Broken("expected one `<nb> = ....get_neighborhood(...)` and one `<mask> = np.zeros(...)`")
+    fn = _canon(fn0, {nb[0]: "neighborhood", mk[0]: "mask"})
     t = MaskTr("data", state="mask").run(list(fn.body))
     return f"Definition gen_nbhd_mask_{tag} (dims : list Z) (neighborhood : list gcoord) : gres gmask :=\n  {t}."
+
+
+def c_nmask_hex():
+    """legacy hex grids (fix C11-5): _HexGrid's own get_neighborhood_mask(pos, include_center, radius) when it has one,
+    otherwise the method inherited from _PropertyGrid"""
+    cls = T._find_class(T._parse(SP), "_HexGrid")
+    own = any(isinstance(n, ast.FunctionDef) and n.name == "get_neighborhood_mask" for n in cls.body)
+    if not own:
+        return ("Definition gen_nbhd_mask_h (dims : list Z) (neighborhood : list gcoord) : gres gmask :=\n"
+                "  gen_nbhd_mask_l dims neighborhood.\nDefinition gen_nbhd_mask_h_own : bool := false.")
+    return (_nmask(SP, "_HexGrid", ["self", "pos", "include_center", "radius"], "h")
+            + "\nDefinition gen_nbhd_mask_h_own : bool := true.")
 
 
 def _fb(sig, val):
@@ -567,4 +630,7 @@ CONSTRUCTS = [
      _fb("gen_nbhd_mask_d (dims : list Z) (neighborhood : list gcoord) : gres gmask", "GErr 0 []")),
     ("pl_nbhd_mask_l", SP, _wrap(lambda: _nmask(SP, "_PropertyGrid", ["self", "pos", "moore", "include_center", "radius"], "l")),
      _fb("gen_nbhd_mask_l (dims : list Z) (neighborhood : list gcoord) : gres gmask", "GErr 0 []")),
+    ("pl_nbhd_mask_h", SP, _wrap(c_nmask_hex),
+     lambda: "Definition gen_nbhd_mask_h (dims : list Z) (neighborhood : list gcoord) : gres gmask := GErr 0 [].\n"
+             "Definition gen_nbhd_mask_h_own : bool := false."),
 ]
